@@ -47,27 +47,28 @@ func (f *Font) Subset(glyphs []glyph.ID) *Font {
 		s.newGid[oldGid] = glyph.ID(newgid)
 	}
 
-	if f.CMapTable != nil {
-		res.CMapTable = make(cmap.Table, len(f.CMapTable))
-		for key := range f.CMapTable {
-			c, err := res.CMapTable.Get(key)
-			if err != nil {
-				continue
-			}
-			c = s.SubsetCMap(c)
-			res.CMapTable[key] = c.Encode(key.Language)
-		}
-	}
 	res.Gsub = s.SubsetGsub(f.Gsub)
-	// At this point we have the final list of glyphs.
-	res.Gpos = s.SubsetGpos(f.Gpos)
-	res.Gdef = s.SubsetGdef(f.Gdef)
 
 	switch outlines := f.Outlines.(type) {
 	case *cff.Outlines:
 		res.Outlines = s.SubsetCFF(outlines)
 	case *glyf.Outlines:
 		res.Outlines = s.SubsetGlyf(outlines)
+	}
+
+	// At this point we have the final list of glyphs.
+	res.Gpos = s.SubsetGpos(f.Gpos)
+	res.Gdef = s.SubsetGdef(f.Gdef)
+	if f.CMapTable != nil {
+		res.CMapTable = make(cmap.Table, len(f.CMapTable))
+		for key := range f.CMapTable {
+			c, err := f.CMapTable.Get(key)
+			if err != nil {
+				continue
+			}
+			c = s.SubsetCMap(c)
+			res.CMapTable[key] = c.Encode(key.Language)
+		}
 	}
 
 	return res
